@@ -515,6 +515,7 @@ def _probe_class(module, name, key, table_params, do_fit=True, budget_s=20.0):
             ctor.append("skip")          # abstract by declaration (abc): cannot be instantiated at all
             continue
         worst = "S"
+        seen_kinds = set()
         weird = [Sentinel(p.name), None, 0, "zz", -1, _sentinel_function]
         for w in weird:
             kw = dict(required)
@@ -533,6 +534,7 @@ def _probe_class(module, name, key, table_params, do_fit=True, budget_s=20.0):
                     st = "S" if got is w else "C"
                 except AttributeError:
                     st = "M"
+            seen_kinds.add(st)
             if "SCRM".index(st) > "SCRM".index(worst):
                 worst = st
         if worst == "S" and p.default is not p.empty:
@@ -544,10 +546,15 @@ def _probe_class(module, name, key, table_params, do_fit=True, budget_s=20.0):
                 got = getattr(obj, p.name)
                 if not (got is p.default or _equiv(got, p.default, True)):
                     worst = "C"
+                    seen_kinds.add("D")          # the default itself comes back changed
             except AttributeError:
                 worst = "M"
+                seen_kinds.add("M")
             except BaseException:
                 pass
+        if worst != "S":
+            # every kind of deviation observed: C changed, D default changed, R raised, M missing
+            worst = "".join(k for k in "CDRM" if k in seen_kinds) or worst
         if (name, "ctor", p.name) in COMPAT_ARTEFACTS:
             worst = "skip"
         ctor.append(worst)
